@@ -33,6 +33,8 @@ Step(a, tok, later) ==
   IN
   IF a.v # "accept" THEN a
   ELSE CASE tok \in {"COMMENT", "WS"} -> a                                   \* comments and blank text never leave the header
+    \* extends / import with a string literal that cannot be unquoted ("a\q"): a syntax error wherever it stands
+    [] tok \in {"EXTENDS_BADSTR", "IMPORT_BADSTR"} -> Acc(s, a.hdr, "reject")
     [] tok = "EXTENDS" -> IF c = "top" /\ a.hdr = "start" THEN Acc(s, "extended", "accept") ELSE Acc(s, a.hdr, "reject")
     [] tok = "IMPORT"  -> IF c = "top" /\ a.hdr \in {"start", "extended", "imports"} THEN Acc(s, "imports", "accept")
                           ELSE Acc(s, a.hdr, "reject")
